@@ -23,10 +23,13 @@ RULE = (
     'as repr(k*step), as the decimal text a user types and in scientific '
     'notation, for both the '
     'rise and the recession curve; plus the off-grid references (k+1/2) '
-    'step and (k+1/4) step for every k, and no reference.  Oracle: on-grid '
+    'step and (k+1/4) step for every k, and no reference; and every on-grid '
+    'reference again as the SECOND assembly of the curve (after a run without '
+    'reference, after a run with another level).  Oracle: on-grid '
     '-> the command succeeds and the master curve is 0 at level k (1e-9 of '
     'the curve range); none -> 0 at the highest level; off-grid -> refused '
-    'and the database unchanged.  Non-trivial = an on-grid reference on the '
+    'and the database unchanged; a second assembly is either refused without '
+    'changing anything or leaves the curve zero at ITS reference.  Non-trivial = an on-grid reference on the '
     'curve.')
 ASSUMPTIONS = [
     'references on the grid but outside the assembled curve are not judged '
@@ -151,7 +154,7 @@ def spaces(tier):
                 except Exception:  # pylint: disable=broad-except
                     # reported as a violation by the 'none' case below
                     for via in vias:
-                        index.append((which, curve, None, 'none', via))
+                        index.append((which, curve, None, 'none', via, None))
                     continue
                 if len(ks) < 40 or ks[0] >= 0 or ks[-1] <= 0:
                     raise InternalError(
@@ -159,15 +162,25 @@ def spaces(tier):
                         'levels %r..%r' % (which, curve, step,
                                            ks[:1], ks[-1:]))
                 for via in vias:
-                    index.append((which, curve, None, 'none', via))
+                    index.append((which, curve, None, 'none', via, None))
                     for k in ks:
-                        for sp in ('repr', 'decimal', 'sci', 'half', 'quarter'):
-                            index.append((which, curve, k, sp, via))
+                        for sp in ('repr', 'decimal', 'sci', 'half',
+                                   'quarter'):
+                            index.append((which, curve, k, sp, via, None))
+                        # the same command as the SECOND assembly of that
+                        # curve: after a run without reference and after a
+                        # run with another reference level
+                        other = ks[len(ks) // 2] if k != ks[len(ks) // 2] \
+                            else ks[0]
+                        index.append((which, curve, k, 'decimal', via,
+                                      'none'))
+                        index.append((which, curve, k, 'decimal', via,
+                                      other))
 
         def decode(i, index=index, step=step):
-            which, curve, k, sp, via = index[i]
+            which, curve, k, sp, via, prior = index[i]
             return {'step': step, 'dataset': which, 'curve': curve, 'k': k,
-                    'spelling': sp, 'via': via}
+                    'spelling': sp, 'via': via, 'prior': prior}
         out.append(Space('reference levels/step=%g' % step, len(index),
                          decode))
     return out
@@ -179,10 +192,18 @@ def run_case(case):
     text = None if sp == 'none' else spelling(sp, k, step)
     ref = None if text is None else float(text)
     db = None
+    prior = case.get('prior')
+    prior_text = None
+    if prior is not None and prior != 'none':
+        prior_text = spelling('decimal', prior, step)
     if via == 'cli':
         db = os.path.join(cs.tmpdir(), 'c09.sqlite3')
         with open(db, 'wb') as f:
             f.write(base_bytes(step, which))
+        if prior is not None:
+            cs.run_main([curve, db] + (
+                [] if prior_text is None
+                else ['--reference-zeta-mm=' + prior_text]))
         before_conn = sqlite3.connect(db)
         before = records.dump(before_conn)
         before_conn.close()
@@ -194,6 +215,12 @@ def run_case(case):
         err = None if status == 0 else exc
     else:
         connection = clone(step, which)
+        if prior is not None:
+            try:
+                FN[curve](connection, None if prior_text is None
+                          else float(prior_text))
+            except Exception:  # pylint: disable=broad-except
+                connection.rollback()
         before = records.dump(connection)
         err = None
         try:
@@ -210,12 +237,19 @@ def run_case(case):
         connection.close()
         if db:
             os.unlink(db)
-    where = '%s -r %s (level %r x step %r, dataset %d, via %s)' % (
-        curve, text, k, step, which, via)
+    where = '%s -r %s (level %r x step %r, dataset %d, via %s%s)' % (
+        curve, text, k, step, which, via,
+        '' if prior is None else ', as second assembly after %s -r %s'
+        % (curve, prior_text))
     nontrivial = False
     if sp in ('repr', 'decimal', 'sci', 'none'):
         nontrivial = sp != 'none'
-        if err is not None:
+        if err is not None and prior is not None:
+            # a second assembly may be refused, but then nothing may change
+            if after != before:
+                viol.append(('refused-second-assembly-changed-database:'
+                             + curve, where))
+        elif err is not None:
             viol.append(('on-grid-reference-refused:' + curve,
                          '%s failed: %r' % (where, err)))
         else:
